@@ -163,6 +163,10 @@ fn check_roundtrip(c: &RtCase, obs: &mut Obs) -> Result<(), String> {
             }
         }
     }
+    // printing what was parsed gives the same text again (a second round trip starts from it)
+    if maxd <= 16 && parsed.to_qasm() != text {
+        return Err(format!("to_qasm(from_qasm(text)) differs from the text it was parsed from: {}", text.replace('\n', " ")));
+    }
     if m.gates.is_empty() && parsed.num_qubits() != m.n {
         return obs.known(
             "qasm-zero-gates-loses-qubits",
